@@ -8,7 +8,7 @@ import rewriters as R
 class C01(Prop):
     id = "C01"
     driver = "Compose"
-    lean_modules = ["Pfb.C01.Props", "Pfb.Compose.Output"]
+    lean_modules = ["Pfb.C01.Props", "Pfb.Compose.Output", "Pfb.C01.EndToEnd"]
     theorems = [
         "Pfb.C01.C01_frame_reformat",
         "Pfb.C01.C01_frame_tidy",
@@ -22,6 +22,20 @@ class C01(Prop):
         "Pfb.Compose.renderBlocks_embeds",
         "Pfb.Blocks.origStmts_preprocess",
         "Pfb.Blocks.origStmts_insertAfterComments",
+        # end to end from the raw text: splitter model (C10) composed with the rewriter and formatter models
+        "Pfb.C01.stmtsText_toStmts",
+        "Pfb.C01.C01_input_is_text",
+        "Pfb.C01.C01_input_runs",
+        "Pfb.C01.output_reformat",
+        "Pfb.C01.C01_reformat_text_frame",
+        "Pfb.C01.C01_reformat_erase",
+        "Pfb.C01.fixStage2_blocks_induct",
+        "Pfb.C01.C01_tidy_blocks",
+        "Pfb.C01.C01_tidy_text_frame_stmts",
+        "Pfb.C01.C01_tidy_text_frame",
+        "Pfb.C01.TidyFrame.erase",
+        "Pfb.C01.witness_zone_glue",
+        "Pfb.C01.exWellPlaced",
     ]
     anchors = [
         ("lib/python/pyflyby/_imports2s.py", "SourceToSourceFileImportsTransformation.preprocess"),
